@@ -46,6 +46,7 @@ const (
 	clsClientKilledConn  = 13
 	clsConnDropped       = 14
 	clsLimitsDiverge     = 15
+	clsStreamLeaked      = 16
 )
 
 var className = map[int]string{
@@ -53,7 +54,7 @@ var className = map[int]string{
 	5: "stream-id", 6: "header-block-interleaved", 7: "frame-on-closed-stream",
 	8: "spurious-settings-ack", 9: "settings-not-acked", 10: "frame-on-idle-stream",
 	11: "conn-credit-not-returned", 12: "stream-stalled", 13: "client-killed-conn",
-	14: "conn-dropped", 15: "client-limits-differ-from-acknowledged",
+	14: "conn-dropped", 15: "client-limits-differ-from-acknowledged", 16: "stream-left-open-at-quiescence",
 }
 
 // Event is one frame in the peer's log. C: client->peer, otherwise peer->client.
